@@ -21,6 +21,7 @@ CHOICES = {
     # element used for a feature without children.  Anything but <feature> is a degenerate document (a group
     # element without members): a reader may reject it, or read the childless element as the leaf it is
     'leaf_tag': ('feature', 'and', 'or', 'alt'),
+    'section_order': ('struct-first', 'constraints-first'),    # XML child order carries no meaning in the format
 }
 DEFAULT = {k: v[0] for k, v in CHOICES.items()}
 
@@ -145,6 +146,16 @@ def emit(model, ch):
         w(1, '<comments/>')
         w(1, '<featureOrder userDefined="false"/>')
     w(0, '</featureModel>')
+    if ch.get('section_order') == 'constraints-first':
+        # move the <constraints> element (whatever form it has) in front of <struct>
+        starts = [i for i, l in enumerate(lines) if l.strip().startswith('<constraints')]
+        if starts:
+            i0 = starts[0]
+            i1 = i0 if lines[i0].strip().endswith('/>') else next(i for i in range(i0, len(lines)) if lines[i].strip() == '</constraints>')
+            block = lines[i0:i1 + 1]
+            del lines[i0:i1 + 1]
+            s0 = next(i for i, l in enumerate(lines) if l.strip() == '<struct>')
+            lines[s0:s0] = block
     return ('\n' if ch['indent'] else '').join(lines) + '\n'
 
 
